@@ -5,6 +5,10 @@ restores the tree (git checkout). A mutant is "caught" when at least one named c
 
   tools/mutants.py list
   tools/mutants.py run [name-substring ...]      (default: all)
+  tools/mutants.py prun N [name-substring ...]   the same on N scratch copies in parallel: each worker gets
+                                                 a copy of /verif under /tmp/verif-mut.<i> whose go.mod points at
+                                                 its own git worktree of /repo (/tmp/repo-mut.<i>); /repo itself is
+                                                 not touched; the copies are removed afterwards
 
 Mutant sources: mutants/<name>.diff (header lines "# props: C01 C02"), seeded/<id>/patch.diff
 (meta.json "property"), and "revert:<commit>" entries generated from KNOWN_FINDINGS.txt fixed lines.
@@ -18,8 +22,9 @@ import subprocess
 import sys
 import time
 
-ROOT = os.path.dirname(os.path.dirname(os.path.abspath(__file__)))
-REPO = "/repo"
+ROOT = os.environ.get("MUT_ROOT") or os.path.dirname(os.path.dirname(os.path.abspath(__file__)))
+REPO = os.environ.get("MUT_REPO") or "/repo"
+SHARD = os.environ.get("MUT_SHARD")  # "i/n": worker i of n (prun)
 
 
 def sh(cmd, cwd=None, timeout=3600):
@@ -60,7 +65,47 @@ def apply(src):
     return rc, out
 
 
+def prun():
+    n = int(sys.argv[2])
+    sel = sys.argv[3:]
+    here = os.path.dirname(os.path.dirname(os.path.abspath(__file__)))
+    procs = []
+    results_path = os.path.join(here, "mutants", "RESULTS.tsv")
+    try:
+        baselen = len(open(results_path).read().splitlines())
+    except OSError:
+        baselen = 0
+    try:
+        for i in range(n):
+            vroot, rroot = "/tmp/verif-mut.%d" % i, "/tmp/repo-mut.%d" % i
+            sh("rm -rf %s; git -C /repo worktree remove --force %s 2>/dev/null; rm -rf %s; git -C /repo worktree prune" % (vroot, rroot, rroot))
+            rc, out = sh("git -C /repo worktree add --detach %s HEAD" % rroot)
+            if rc != 0:
+                print(out)
+                return 2
+            sh("rsync -a --exclude .git --exclude .build --exclude .stats --exclude 'replays/C*.json' %s/ %s/" % (here, vroot))
+            sh("sed -i 's#=> /repo#=> %s#' %s/go.mod" % (rroot, vroot))
+            env = dict(os.environ, MUT_ROOT=vroot, MUT_REPO=rroot, MUT_SHARD="%d/%d" % (i, n))
+            procs.append(subprocess.Popen([sys.executable, os.path.join(vroot, "tools", "mutants.py"), "run"] + sel, env=env))
+        for p in procs:
+            p.wait()
+        with open(results_path, "a") as f:
+            for i in range(n):
+                try:
+                    lines = open("/tmp/verif-mut.%d/mutants/RESULTS.tsv" % i).read().splitlines()
+                except OSError:
+                    continue
+                # every copy started from the same file: append what the worker added
+                f.write("".join(l + "\n" for l in lines[baselen:]))
+    finally:
+        for i in range(n):
+            sh("rm -rf /tmp/verif-mut.%d; git -C /repo worktree remove --force /tmp/repo-mut.%d 2>/dev/null; rm -rf /tmp/repo-mut.%d; git -C /repo worktree prune" % (i, i, i))
+    return 0
+
+
 def main():
+    if len(sys.argv) >= 3 and sys.argv[1] == "prun":
+        return prun()
     if len(sys.argv) < 2 or sys.argv[1] == "list":
         for name, src, props in mutants():
             print(name, src[0], " ".join(props))
@@ -71,9 +116,11 @@ def main():
         print("refusing: /repo working tree is not clean")
         return 2
     results = []
-    for name, src, props in mutants():
-        if sel and not any(s in name for s in sel):
-            continue
+    todo = [m for m in mutants() if not sel or any(s in m[0] for s in sel)]
+    if SHARD:
+        i, n = map(int, SHARD.split("/"))
+        todo = todo[i::n]
+    for name, src, props in todo:
         try:
             rc, out = apply(src)
             if rc != 0:
